@@ -42,7 +42,98 @@ def c02(ctx):
     ctx.floor("Merge types of the moment family analysed", n, 10)
 
 
+EST_KINDS = [
+    ("moments::Mean", "Mean", {}), ("moments::Variance", "Variance", {}), ("moments::Skewness", "Skewness", {}),
+    ("moments::Kurtosis", "Kurtosis", {}), ("Moments4", "Moments", {"N": 4}),
+    ("m4::M4", "Moments", {"N": 4}), ("m5::M5", "Moments", {"N": 5}), ("m6::M6", "Moments", {"N": 6}),
+    ("m8::M8", "Moments", {"N": 8}), ("m10::M10", "Moments", {"N": 10}),
+    ("weighted_mean::WeightedMean", "WeightedMean", {"weighted": True}),
+    ("weighted_mean::WeightedMeanWithError", "WeightedMeanWithError", {"weighted": True}),
+    ("covariance::Covariance", "Covariance", {}), ("minmax::Min", "Min", {}), ("minmax::Max", "Max", {}),
+]
+
+
+def quantile_ctor(m):
+    import fnode as F
+    p = F.atom("p")
+    m.order.set_nan(p, False)
+    m.order.assume("Ge", p, F.ZERO, True)
+    m.order.assume("Le", p, F.ONE, True)
+    return [p]
+
+
+def c16(ctx):
+    db = ctx.db("B")
+    cells = 0
+    types = 0
+    for path, kind, kw in EST_KINDS:
+        e = Est(db, path)
+        if not e.exists():
+            continue
+        if ctx.tier == "quick" and path in ("m8::M8", "m10::M10", "m4::M4"):
+            continue
+        types += 1
+        cells += R.r_sentinel(ctx, db, e, kind, N=kw.get("N"), weighted=kw.get("weighted", False))
+        leaf = R.count_leaf(ctx, db, e)
+        if e.add and kind not in ("Min", "Max"):
+            R.r_const_induction(ctx, db, e, leaf, weighted=kw.get("weighted", False))
+        # states of the table reached through Default or through merges with empty estimators
+        R.r_default_is_new(ctx, db, e)
+        R.r_ident_merge(ctx, db, e, assume=R.nonnan_state if kind in ("Min", "Max") else None)
+    q = Est(db, "quantile::Quantile")
+    if q.exists():
+        types += 1
+        cells += R.r_sentinel(ctx, db, q, "Quantile", ctor_args=quantile_ctor)
+        import fnode as F
+        R.r_default_is_new(ctx, db, q, new_args=lambda m: [F.lit(0.5)])
+    ctx.floor("estimator types with a sentinel table", types, 11)
+    ctx.floor("sentinel table cells evaluated", cells, 120)
+
+
+HIST_TYPES = [("hist::Histogram", 10), ("h1::Histogram", 1), ("h2::Histogram", 2), ("h3::Histogram", 3),
+              ("h4::Histogram", 4), ("h10::Histogram", 10), ("h100::Histogram", 100)]
+MERGE_TYPES = ["moments::Mean", "moments::Variance", "moments::Skewness", "moments::Kurtosis", "Moments4",
+               "m5::M5", "m6::M6", "m8::M8", "m10::M10", "minmax::Min", "minmax::Max",
+               "weighted_mean::WeightedMean", "weighted_mean::WeightedMeanWithError", "covariance::Covariance"]
+
+
+def c11(ctx):
+    db = ctx.db("B")
+    n = 0
+    for t in MERGE_TYPES:
+        e = Est(db, t)
+        if not e.exists() or not e.merge:
+            continue
+        if ctx.tier == "quick" and t in ("m8::M8", "m10::M10"):
+            continue
+        n += 1
+        R.r_ident_merge(ctx, db, e, assume=R.nonnan_state if t.startswith("minmax") else None)
+        if e.m("len", None):
+            R.r_count(ctx, db, e, "B")
+        R.r_derived_clone(ctx, db, e)
+    ctx.floor("Merge impls analysed (non-histogram)", n, 11)
+    nh = 0
+    for t, ln in HIST_TYPES:
+        if ctx.tier == "quick" and ln > 10:
+            continue
+        e = Est(db, t)
+        if not e.exists():
+            continue
+        nh += 1
+        R.r_hist_merge_identity(ctx, db, e, ln)
+    ctx.floor("histogram Merge impls analysed", nh, 5)
+    if "A" in cfgs(ctx):
+        dba = ctx.db("A")
+        e = Est(dba, "histogram_const::Histogram")
+        if e.exists():
+            for ln in (1, 3):
+                R.r_hist_merge_identity(ctx, dba, e, ln, consts={"LEN": ln})
+    R.r_no_interior_mutability(ctx, db)
+
+
 PROPS = {
+    "C11": {"run": c11, "level": "proof", "explanation": "merge identity"},
+    "C16": {"run": c16, "level": "proof", "explanation": "sentinel table"},
     "C02": {"run": c02, "level": "other", "explanation": "merge laws"},
     "C01": {"run": c01, "level": "other",
             "explanation": "Decides the structural clauses of C01 (count discipline, ...); the forward-error envelope is not decided."},
